@@ -4,7 +4,7 @@ from harness.common import Prop, z, lst, tup
 class C35(Prop):
     ID = "C35"
     DESIGN_REF = "DESIGN.md §7 C35"
-    RULE = ("batches of error-log entries over 3 messages x 2 severities x times 0..5, mostly sorted runs plus a "
+    RULE = ("1-3 runs separated by clear(), each a sequence of batches of error-log entries over 3 messages x 2 severities x times 0..5, mostly sorted runs plus a "
             "stream of unsorted/earlier-time entries; non-trivial = at least one merge (occurrences>1) or a "
             "redelivered duplicate or an interleaving of keys; distinct by canonical JSON of the batches")
     LEVEL_TEXT = ("Coq theorems about an executable model of AggregatedErrorLog.aggregate_with for ALL streams and all "
@@ -26,52 +26,75 @@ class C35(Prop):
     def gen_cases(self, rng, n, tier):
         out = []
         for _ in range(n):
-            nb = rng.randint(0, 4)
+            nseg = rng.choice([1, 1, 2, 3])
             mode = rng.random()
             t = 0
-            batches = []
-            for _ in range(nb):
-                batch = []
-                for _ in range(rng.randint(0, 5)):
-                    if mode < 0.7:       # mostly valid: non-decreasing times, sticky keys
-                        t += rng.choice([0, 0, 1, 1, 2])
-                        tt = t
-                    else:                # malformed stream: arbitrary times
-                        tt = rng.randint(0, 5)
-                    m = rng.choice([1, 1, 1, 2, 3])
-                    sv = rng.choice([1, 1, 2])
-                    batch.append([m, sv, tt])
-                batches.append(batch)
-            out.append(batches)
+            segs = []
+            last_key = None
+            for _ in range(nseg):
+                nb = rng.randint(0, 4)
+                batches = []
+                for _ in range(nb):
+                    batch = []
+                    for _ in range(rng.randint(0, 5)):
+                        if mode < 0.7:       # mostly valid: non-decreasing times, sticky keys
+                            t += rng.choice([0, 0, 1, 1, 2])
+                            tt = t
+                        else:                # malformed stream: arbitrary times
+                            tt = rng.randint(0, 5)
+                        if last_key is not None and rng.random() < 0.5:
+                            m, sv = last_key            # the same error keeps recurring, also across runs
+                        else:
+                            m = rng.choice([1, 1, 1, 2, 3])
+                            sv = rng.choice([1, 1, 2])
+                        last_key = (m, sv)
+                        batch.append([m, sv, tt])
+                    batches.append(batch)
+                segs.append(batches)
+            out.append(segs)
         return out
+
+    def corpus(self):
+        old = super().corpus()
+        # corpus entries written before segments existed are single-segment cases
+        return [c if (c and c[0] and c[0][0] and isinstance(c[0][0][0], list)) or c == [] or c == [[]] else [c] for c in old]
 
     def run_impl(self, case):
         from openpectus.aggregator.models import AggregatedErrorLog
         import openpectus.protocol.models as Mdl
         log = AggregatedErrorLog.empty()
-        for batch in case:
-            el = Mdl.ErrorLog(entries=[Mdl.ErrorLogEntry(message=f"m{m}", created_time=float(t), severity=sv)
-                                       for m, sv, t in batch])
-            log.aggregate_with(el)
-        res = []
-        for e in log.entries:
-            assert e.created_time == int(e.created_time)
-            res.append([int(e.message[1:]), e.severity, int(e.created_time), e.occurrences])
-        return res
+        out = []
+        k = 0
+        for seg in case:
+            for batch in seg:
+                el = Mdl.ErrorLog(entries=[Mdl.ErrorLogEntry(message=f"m{m}", created_time=float(t), severity=sv)
+                                           for m, sv, t in batch])
+                log.aggregate_with(el)
+                k += 1
+                if k % 3 == 0:      # the log is stored and rebuilt (database round trip) now and then
+                    log = AggregatedErrorLog.model_validate(log.model_dump())
+            res = []
+            for e in log.entries:
+                assert e.created_time == int(e.created_time)
+                res.append([int(e.message[1:]), e.severity, int(e.created_time), e.occurrences])
+            out.append(res)
+            log.clear()             # EngineData.reset_run() between two runs
+        return out
 
     def case_to_coq(self, case):
-        return lst([lst([tup(z(m), z(sv), z(t)) for m, sv, t in b]) for b in case])
+        return lst([lst([lst([tup(z(m), z(sv), z(t)) for m, sv, t in b]) for b in seg]) for seg in case])
 
     def obs_to_coq(self, obs):
-        return lst([tup(z(a), z(b_), z(c), z(d)) for a, b_, c, d in obs])
+        return lst([lst([tup(z(a), z(b_), z(c), z(d)) for a, b_, c, d in seg]) for seg in obs])
 
     def nontrivial(self, case, obs):
-        flat = [e for b in case for e in b]
-        return len(flat) >= 2 and (any(o[3] > 1 for o in obs) or len(obs) < len(flat))
+        flat = [e for seg in case for b in seg for e in b]
+        rows = [o for seg in obs for o in seg]
+        return len(flat) >= 2 and (any(o[3] > 1 for o in rows) or len(rows) < len(flat))
 
     def kind(self, case, obs):
-        flat = [e for b in case for e in b]
-        return f"batches={len(case)},entries={min(len(flat), 10)}"
+        flat = [e for seg in case for b in seg for e in b]
+        return f"runs={len(case)},batches={sum(len(s) for s in case)},entries={min(len(flat), 10)}"
 
 
 PROP = C35()
